@@ -24,13 +24,15 @@ BOUNDS = {
               "branch/jump distance": "twice the documented reach, every even instruction address below 2**32",
               "machine state": "x1..x31 and pc: every 32-bit value; memory: every content of the bytes an instruction can touch "
                                "(8 symbolic bytes, address mod 8), compared at a symbolic probe address",
-              "instruction classes": "every non-system class of ppci.arch.riscv.instructions / rvc_instructions with syntax + tokens"},
+              "instruction classes": "every non-system class of ppci.arch.riscv.instructions / rvc_instructions with syntax + tokens",
+              "pseudo-instructions": "li rd, imm: rd 0..31, imm -2**31 .. 2**32-1 (signed and unsigned spellings); the whole "
+                                     "rendered sequence (real render() + encode()) is executed"},
 }
 BOUNDS["thorough"] = dict(BOUNDS["quick"])
 BOUNDS["thorough"]["immediates"] = BOUNDS["quick"]["immediates"].replace("2**33", "2**48")
 BOUNDS["thorough"]["branch/jump distance"] = BOUNDS["quick"]["branch/jump distance"].replace("twice", "16 times")
 OUTSIDE = ["arm, thumb, m68k, mips, x86_64 (no ISA model)", "F/D floating-point and CSR/system instructions (csr*, rdcycle*, ebreak, mret)",
-           "pseudo-instructions without an encoding of their own; extra_uses/extra_defs/clobbers that the code generator attaches "
+           "pseudo-instructions whose expansion needs relocations (la, lw rd,label) and the rvc selection helpers (Andv, Lwv, ...: not in the ISA object); extra_uses/extra_defs/clobbers that the code generator attaches "
            "to individual call instructions (instances are built the way the assembler builds them)",
            "words that are not an RV32IMC instruction (reserved encodings: decided under C08)",
            "traps (misaligned targets, access faults): the model has none"]
@@ -77,12 +79,17 @@ class AnnotationHarness(_rv.EncodeHarness):
         _, data, printed, used, defined = r
         if len(data) not in (2, 4):
             return {"instruction-length": False}
-        word = _rv.le(data)
+        return self.obligations(i, [data], printed, used, defined)
+
+    def obligations(self, i, seq, printed, used, defined):
+        """seq: the emitted instructions (byte lists), executed one after the other"""
         mem = [i[f"m{k}"] for k in range(8)]
         xs = [0] + [i[f"x{k}"] for k in range(1, 32)]
         zs = [0] + [i[f"z{k}"] for k in range(1, 32)]
         shared = list(used) + [2]          # registers the two states agree on: declared reads + sp
-        symbolic = any(type(v) is not int for v in xs + zs + mem + shared + [word, i["pc"], i["probe"], i["k"]])
+        words = [(_rv.le(d), len(d)) for d in seq]
+        symbolic = any(type(v) is not int for v in xs + zs + mem + shared + [w for w, n in words] +
+                       [i["pc"], i["probe"], i["k"]])
         if symbolic:
             # register files as z3 arrays tied to the declared inputs (keeps symbolic register numbers cheap);
             # state B reads X on the shared registers and Z elsewhere
@@ -103,8 +110,13 @@ class AnnotationHarness(_rv.EncodeHarness):
             sa = rv32.make_state(xs, i["pc"], membytes=mem)
             sb = rv32.make_state(ys, i["pc"], membytes=mem)
         o = sa.ops
-        ta = rv32.step(sa, word, len(data))
-        tb = rv32.step(sb, word, len(data))
+        ta, tb = sa, sb
+        la, sysa = True, False
+        for w, n in words:
+            ta = rv32.step(ta, w, n)
+            tb = rv32.step(tb, w, n)
+            la = o.and_(la, ta.legal)
+            sysa = o.or_(sysa, ta.system)
         rr = rv32.read_reg
 
         def member(k, nums):
@@ -120,15 +132,38 @@ class AnnotationHarness(_rv.EncodeHarness):
         probe = o.val(i["probe"])
         same_pc = o.eq(ta.pc, tb.pc)
         same_mem = o.eq(ta.mem.load_byte(probe), tb.mem.load_byte(probe))
-        legal = o.and_(ta.legal, o.not_(ta.system), *link)
+        legal = o.and_(la, o.not_(sysa), *link)
         docprem = self.imm_premise(i, printed)
         if symbolic:
             docprem = core.tobool(docprem)
-        return {"executes: bytes are an RV32IMC instruction (C08)": _wrap(imp(o.and_(docprem, *link), ta.legal)),
+        return {"executes: bytes are an RV32IMC instruction (C08)": _wrap(imp(o.and_(docprem, *link), la)),
                 "frame: only defined registers change": _wrap(imp(legal, frame)),
                 "non-interference: defined registers": _wrap(imp(legal, o.and_(True, *same_regs))),
                 "non-interference: next pc": _wrap(imp(legal, same_pc)),
                 "non-interference: memory": _wrap(imp(legal, same_mem))}
+
+
+class PseudoAnnotationHarness(_rv.PseudoHarness, AnnotationHarness):
+    """pseudo-instructions: the rendered SEQUENCE is executed; annotations are the pseudo-instruction's own"""
+    PREFIX = "rv.usedef-pseudo"
+
+    def run(self, i):
+        return self.expand(i)
+
+    def post(self, i, out):
+        if not out.ok:
+            return {"harness-ran": False}
+        r = out.value
+        if r[0] == "rejected":
+            return {"rejected": True}
+        _, seq, printed, used, defined, after = r
+        if not seq or any(len(d) not in (2, 4) for d in seq):
+            return {"instruction-length": False}
+        return self.obligations(i, seq, printed, used, defined)
+
+
+def mk_pseudo(**kw):
+    return PseudoAnnotationHarness(**kw)
 
 
 def mk_ann(**kw):
@@ -166,6 +201,8 @@ def jobs(tier, seed):
     js = [("mk_selftest", {})]
     for (arch, idx, cls, mn, ks) in claimed():
         js.append(("mk_ann", dict(arch=arch, idx=idx, cls=cls, mn=mn, ks=ks, wide=int(tier == "thorough"))))
+    for (arch, idx, cls, mn, ks) in _rv.discover(True):
+        js.append(("mk_pseudo", dict(arch=arch, idx=idx, cls=cls, mn=mn, ks=ks, wide=int(tier == "thorough"))))
     only = os.environ.get("VERIF_ONLY")
     if only:
         js = [j for j in js if only in repr(j)]
